@@ -123,7 +123,13 @@ def render_block(b, templates):
     if o == "del":
         ls = ["DELETE"]
         for l in b["lines"]:
-            ls.append(f" -{l[0]} " + " ".join(fmt_tok(t) for t in l[2]))
+            cut = l[3] if len(l) > 3 else None
+            if cut:
+                # numbers continued on a line of their own (no option: get_option falls back to the previous option)
+                ls.append(f" -{l[0]} " + " ".join(fmt_tok(t) for t in l[2][:cut]))
+                ls.append("   " + " ".join(fmt_tok(t) for t in l[2][cut:]))
+            else:
+                ls.append(f" -{l[0]} " + " ".join(fmt_tok(t) for t in l[2]))
         return ls
     if o == "cells":
         return ["RUN_CELLS", f" -{b.get('opt', 'cells')} " + " ".join(fmt_tok(t) for t in b["toks"])]
@@ -331,8 +337,9 @@ def gen_block(rng, sh, ids, n_templates, weights):
             if rng.random() < 0.2:
                 # an abbreviation: find_option takes the first option it is a prefix of, which may be another item
                 name, item = name[:rng.randint(1, len(name))], None
-            lines.append([name, item, toks])
-        for name, item, toks in lines:
+            cut = rng.randint(1, len(toks) - 1) if len(toks) >= 2 and name[0] != "a" and rng.random() < 0.25 else None
+            lines.append([name, item, toks, cut])
+        for name, item, toks, _ in lines:
             if item is None:
                 continue
             if item == "all" or (item == "cell" and not toks):
